@@ -111,6 +111,14 @@ KNOWN = [
            "'one write failed' / 'Fail to load l2 table' or loses mappings (a cache slice was evicted during a multi-cluster call)",
       rules=[], tags=["hist:eviction_during_concurrency"],
       reproducer="findings/C12-eviction-in-multi-cluster-write.json", domain="seq"),
+ dict(id="C17-slice-eviction-under-concurrency", property="C17",
+      what="same root cause as C06-slice-eviction-under-concurrency / C12-slice-eviction-under-concurrency: one multi-cluster write "
+           "runs its per-cluster parts concurrently, so with a tiny cache a slice is evicted while a sibling part still uses it and "
+           "the call fails with 'one write failed' (inner error 'Fail to load l2 table') although the backend completed every "
+           "request - in a fault history this shows as 'device not usable after an earlier fault' because the earlier fault only "
+           "shifted the cache state (a cache slice was evicted during a multi-cluster call of the history)",
+      rules=["ApiErr", "DiscardErr", "ReadData", "Reopen", "Frame"], tags=["hist:eviction_during_concurrency"],
+      reproducer="findings/C17-eviction-in-multi-cluster-write.json", domain="singles"),
  dict(id="C18-slice-eviction-under-concurrency", property="C18",
       what="same root cause as C06-slice-eviction-under-concurrency: an update made through a slice evicted while several "
            "tasks run is lost from the cache, so after flush_meta the flag is false although file and memory disagree "
